@@ -23,6 +23,9 @@ CLAIMED = {
  'C08': dict(text="Theorems C08_cut_reported, C08_boundary_eof, C08_boundary_error, C08_packet_needs_all_bytes: every proper prefix of every frame, under every schedule and failure style, yields (nil, err) with errors.Is(err, E) for a transport error and io.EOF on a frame boundary. Correspondence: every cut offset of generated frames through scripted readers.",
              note="As C07: modelled reader contract; %w wrapping is modelled as Err.io.",
              technique="Lean 4 theorem over a modelled io.Reader contract + differential correspondence", ref="§7 C08"),
+ 'C10': dict(text="Theorems C10_two_pass (for every packet value the Go-shaped two-pass encoder of Mq.Fill — fill(buf,i) with the Go guards, dry run on the nil slice, real pass on a buffer of that size — produces exactly Packet.encode and width() is its length; Proofs.Fill: Sound/two_pass for every wire type incl. the per-byte-guarded vbint loop, Proofs.FillPackets: every packet section), C10_frame_shape (1 + remaining-length field + remaining length), C10_writeTo (exactly one Write offered the whole frame; count and error are the writer's), C10_count, C10_short_write, C10_undefined (error, no Write), C10_defined_types, C10_string_size (String prints the dry-run width = frame length). Correspondence: ENC/WR/STR of API-built, malformed-but-constructible and zero-value packets against scripted writers; the driver executes the Go-shaped fillers.",
+             note="io.Writer is the script {accept, err}; a writer violating its contract is out of scope. Model/code tie by differential testing.",
+             technique="Lean 4 refinement proof (Go-shaped fill(buf,i) fillers refine list-append encoding; dry run = real pass) + differential correspondence", ref="§7 C10"),
  'C12': dict(text="Theorems C12_connect_flags (over every setter history from NewConnect: user-name/password flags iff non-empty, will flag iff a will is attached, will QoS/retain mirror the message, reserved bit clear), C12_connect_step, C12_clean_start, C12_session_present(+_frame), C12_publish_dup_retain, C12_publish_qos; bit facts are complete kernel-checked enumerations of the 256 flag bytes. Scalar setters are record updates in the model; correspondence compares every accessor after every step of generated histories.",
              note="The model's plain setters are last-write-wins by construction; that they match the Go setters is established by differential testing of histories only.",
              technique="Lean 4 invariant by induction over setter histories + exhaustive bit tables + differential correspondence", ref="§7 C12"),
